@@ -215,7 +215,7 @@ func (c20) Gen(r *rand.Rand, tier string, i int) any {
 	case k < 15:
 		in := c20In{Kind: "ui", Method: m, HasNext: r.Intn(3) != 0, Flavour: r.Intn(4), Custom: r.Intn(6) == 0}
 		in.UBase = Bs(c20Pick(r, "", "", "/", "/api", "api", "/api/", "/a/../b", "/<b>", "/it's"))
-		in.UPath = Bs(c20Pick(r, "", "", "docs", "/docs/", "ui/redoc", "..", "d\"q", "<x>"))
+		in.UPath = Bs(c20Pick(r, "", "", "docs", "/docs/", "ui/redoc", "..", "d\"q", "<x>", "/", ".", "//"))
 		in.USpecURL = Bs(c20Pick(r, "", "", "/swagger.json", "/spec/openapi.json", "http://example.com/x/y.json", "spec.json", "/s.json?a=1&b=2", "javascript:alert(1)", "/x'><script>y</script>", `/q"uote.json`, "/a b.json"))
 		in.UTitle = Bs(c20Title(r))
 		if in.Flavour >= 2 {
@@ -238,7 +238,7 @@ func (c20) Gen(r *rand.Rand, tier string, i int) any {
 			base = string(in.UBase)
 		}
 		if r.Intn(3) == 0 {
-			in.HasOUIPath, in.UPath = true, Bs(c20Pick(r, "", "docs", "documentation", "ui/docs", "/docs/", "swagger.json"))
+			in.HasOUIPath, in.UPath = true, Bs(c20Pick(r, "", "docs", "documentation", "ui/docs", "/docs/", "swagger.json", "/", "."))
 		}
 		if r.Intn(4) != 0 {
 			in.HasOSpecURL, in.USpecURL = true, Bs(c20Pick(r, "", "/swagger.json", "/spec/openapi.json", "/spec/dir/doc.json", "/api/swagger.json",
